@@ -12,10 +12,16 @@ scratch tree (names, sizes, content hashes, directories), call `save`, snapshot 
 
   (a) invalid   the value at ONE key (every leaf of the main config and of every sub-config in turn) is invalid,
                 a required key is missing, or an unknown key is present;
-  (b) unser     ONE value of a registered type (every position in turn) is valid but its serialiser raises;
+  (b) unser     ONE value of a registered type (every position in turn) is valid but its serialiser raises; ONE value
+                (every `Any`-typed position in turn; every leaf in turn when validation is switched off) is an object
+                that passes the per-argument serialisers but that the dumper (yaml / json) cannot represent;
   (c) refusal   `overwrite=False` and a destination exists (arises from the pre-existing axis);
   (d) oserror   the k-th `open` / `write` / `close` raises OSError, for every k seen in the fault-free run of the
                 same case (`builtins.open` is interposed by the harness for the duration of the save call only).
+
+History: after a fault-free save that returned, the SAME configuration object is saved once more with the same
+arguments into another, empty directory (`saves: 2`); the second call is judged like the first (its own snapshot
+pair, its own round trip against the configuration as it was before the first save).
 
 The oracle is the statement, clause by clause (see `judge`).
 """
@@ -78,12 +84,14 @@ class Comp:
         self.dests = []  # base names written next to the target in multi-file mode, in no particular order
         self.leaves = []  # (address, type tag) for invalidity
         self.toks = []  # addresses of registered-type values (serialiser can be made to raise)
+        self.anys = []  # addresses of `Any`-typed values (an object the dumper cannot represent is a VALID value there)
         self.from_file = True
         self.nonplain = False  # a file-loaded sub-config holding a value that is not a plain YAML/JSON type
         doc = None
         if kind in ("P", "Pi"):
-            doc = {"x": 5 + i, "s": "q"}
+            doc = {"x": 5 + i, "s": "q", "v": 7 + i}
             self.leaves = [([k, "x"], "int")]
+            self.anys = [[k, "v"]]
         elif kind in ("Pt", "Pti"):
             doc = {"x": 5 + i, "t": "tok:q"}
             self.leaves = [([k, "x"], "int"), ([k, "t"], "tok")]
@@ -140,7 +148,7 @@ class Comp:
             self.dests.append(os.path.basename(sub))
 
     def add(self, parser):
-        from typing import Dict
+        from typing import Any, Dict
 
         import jsonargparse
 
@@ -151,6 +159,7 @@ class Comp:
             inner.add_argument("--x", type=int, default=1)
             if kind in ("P", "Pi"):
                 inner.add_argument("--s", type=str, default="s")
+                inner.add_argument("--v", type=Any, default=None)
             if kind in ("Pt", "Pti"):
                 inner.add_argument("--t", type=fx.Tok, default=fx.Tok("i"))
             if kind == "Pe":
@@ -227,14 +236,16 @@ def main_document(comps, in_dir, absolute_paths):
     return doc
 
 
-def fault_points(comps):
+def fault_points(comps, skip_validation=False):
     """Every single failure point of classes (a) and (b) for this shape (class (d) comes from the fault-free trace)."""
     out = []
     leaves = list(MAIN_LEAVES)
     toks = list(MAIN_TOKS)
+    anys = []
     for c in comps:
         leaves += c.leaves
         toks += c.toks
+        anys += c.anys
     for addr, tag in leaves:
         out.append({"kind": "invalid", "how": "type", "at": addr, "tag": tag})
     out.append({"kind": "invalid", "how": "missing", "at": ["r"]})
@@ -244,6 +255,13 @@ def fault_points(comps):
             out.append({"kind": "invalid", "how": "extra", "at": [c.key, "zz"]})
     for addr in toks:
         out.append({"kind": "unser", "at": addr})
+    # an object that no dumper can represent: a VALID value at an `Any`-typed position; at every other leaf only
+    # reachable when the caller has switched validation off (otherwise it is just one more invalid value, class (a))
+    for addr in anys:
+        out.append({"kind": "unser", "how": "opaque", "at": addr, "tag": "any"})
+    if skip_validation:
+        for addr, tag in leaves:
+            out.append({"kind": "unser", "how": "opaque", "at": addr, "tag": tag})
     return out
 
 
@@ -256,7 +274,9 @@ def place_fault(cfg, fault, exc_kind):
     node = cfg
     for seg in addr[:-1]:
         node = node[seg]
-    if kind == "unser":
+    if kind == "unser" and fault.get("how") == "opaque":
+        node[addr[-1]] = fx.Opaque()
+    elif kind == "unser":
         node[addr[-1]] = fx.Tok({"RuntimeError": "boom", "ValueError": "boomV", "TypeError": "boomT"}[exc_kind])
     elif fault["how"] == "missing":
         del node[addr[-1]]
@@ -444,6 +464,7 @@ DEFAULTS = {
     "pre": [],  # destinations (base names) that already exist
     "pre_content": "text",  # text | empty | symlink (a link to a file elsewhere in the tree)
     "fault": {"kind": "none"},
+    "saves": 1,  # 2: after a fault-free save that returned, the same cfg object is saved again into another directory
 }
 
 
@@ -569,6 +590,28 @@ def execute(case, twin=None):
             raise HarnessError(f"C18 harness: planned I/O fault {plan} did not fire (trace {st['trace']})")
 
         devs, obs = judge(case, comps, mode, root, out_dir, main_name, sub_names, real_dests, before, after, exc, st, cwd, cwd_after, reference)
+
+        if case["saves"] > 1 and exc is None and fault["kind"] == "none":
+            # history: the very same configuration object is saved once more with the same arguments, into an empty
+            # directory (single-file mode next to the loaded files: same directory, new name - a relative path value is
+            # not carried along, see the interpretation above).  Judged like the first call, against the configuration
+            # as it was before the first save.
+            if case["multifile"] or not same_dir:
+                out2, main2 = os.path.join(root, "again"), "main." + case["ext"]
+                os.makedirs(out2)
+            else:
+                out2, main2 = in_dir, "again." + case["ext"]
+            real2 = {n: os.path.realpath(os.path.join(out2, n)) for n in [main2] + sub_names}
+            os.chdir(cwd)
+            before2 = snapshot(root)
+            exc2, st2 = call_save(parser, cfg, os.path.join(out2, main2), kwargs, None)
+            cwd_after2 = os.getcwd()
+            os.chdir(root)
+            after2 = snapshot(root)
+            case2 = case if out2 == in_dir else dict(case, layout="other")  # (only names the place in signatures)
+            devs2, obs2 = judge(case2, comps, mode, root, out2, main2, sub_names, real2, before2, after2, exc2, st2, cwd, cwd_after2, reference)
+            devs += [(f"{mode}:second-save:{s.split(':', 1)[1]}", d) for s, d in devs2]
+            obs["second"] = {"outcome": obs2["outcome"], "roundtrip": obs2["roundtrip"], "exc": obs2["exc"], "changed": obs2["changed"]}
     obs["trace"] = st["trace"]
     obs["n"] = st["n"]
     faulty_serialisation = fault["kind"] == "unser" or (fault["kind"] == "invalid" and case["skip_validation"])
@@ -649,6 +692,10 @@ def judge(case, comps, mode, root, out_dir, main_name, sub_names, real_dests, be
             target_opened = real_dests[main_name] in st["opened_w"]
             top = "target" if by_role["target"] or target_opened else "subfiles"
             devs.append((f"{mode}:{label}:changed:{top}", summary))
+    elif fkind == "unser" and fault.get("how") == "opaque" and fault["tag"] != "any":
+        # validation is off and the option's own serialiser turned the object into something writable (e.g. a path
+        # option writes str(value)): the user asked for no checking, nothing is demanded of a save that returns
+        outcome = "saved-despite-fault"
     elif fkind == "unser" or (fkind == "invalid" and not case["skip_validation"]):
         devs.append((f"{mode}:{label}:no-exception", summary))
         outcome = "saved-despite-fault"
@@ -735,9 +782,10 @@ def run_base(base):
     out = {"cases": 0, "devs": [], "ids": [], "counts": {}, "sample": None, "nontrivial": 0}
     first_obs = {}
 
-    def one(fault):
+    def one(fault, saves=1):
         case = dict(base)
         case["fault"] = fault
+        case["saves"] = saves
         res = execute(case, twin=first_obs.get("obs"))
         slim = slim_case(case)
         out["cases"] += 1
@@ -768,16 +816,37 @@ def run_base(base):
             keys.append(f"failed-and-unchanged:{fault['kind']}")
         if o["outcome"] == "refused-or-failed":
             keys.append("refused:" + ("something-written-before" if any(o["changed"].values()) else "nothing-written"))
+        if o["outcome"] == "saved" and case["multifile"] and any(c.from_file and c.kind in SUBCONFIG_KINDS for c in comps):
+            keys.append("multi-saved-with-subconfig-file")
+        if fault.get("how") == "opaque":
+            keys.append(f"opaque:{'any-typed' if fault['tag'] == 'any' else 'validation-off'}:{o['outcome']}")
+            if fault_where(fault, comps) == "sub":
+                keys.append(f"opaque-in-subfile-config:{o['outcome']}")
+        if o.get("second"):
+            o2 = o["second"]
+            keys.append(f"second-save:{o2['outcome']}")
+            keys.append(f"second-save:roundtrip:{o2['roundtrip']}")
+            # (counted whatever the outcome: the vacuity guards must not depend on the property holding)
+            if case["multifile"] and destinations(case, comps)[1]:
+                keys.append(f"second-save-multi-with-subfiles:{o2['roundtrip']}")
+            if case["skip_validation"]:
+                keys.append(f"second-save-validation-off:{o2['roundtrip']}")
+            if case["layout"] != "other":
+                keys.append(f"second-save-after-same-dir-layout:{o2['roundtrip']}")
         for k in keys:
             out["counts"][k] = out["counts"].get(k, 0) + 1
         for s, d in res["devs"]:
             out["devs"].append((s, slim, d))
         return res
 
-    first = one({"kind": "none"})
+    # the fault-free case carries the history axis: if the save returns, the same cfg object is saved a second time
+    # the `exc` axis only changes WHAT a raising serialiser raises: every case of such a base other than the raising-
+    # serialiser ones is literally a case of the default base, so only those (and the fault-free twin) are executed
+    only_raising = base["exc"] != DEFAULTS["exc"]
+    first = one({"kind": "none"}, saves=1 if only_raising else 2)
     first_obs["obs"] = first["obs"]
-    out["sample"] = {"case": slim_case(dict(base, fault={"kind": "none"})), "trace": first["obs"]["trace"], "outcome": first["obs"]["outcome"]}
-    points = fault_points(comps)
+    out["sample"] = {"case": slim_case(dict(base, fault={"kind": "none"}, saves=1 if only_raising else 2)), "trace": first["obs"]["trace"], "outcome": first["obs"]["outcome"]}
+    points = fault_points(comps, base["skip_validation"])
     if first["obs"]["refusal_possible"]:
         # the call is refused because a destination exists: classes (a)/(b) are judged by the no-overwrite clause only
         # there, so one representative per class and place is enough (first main key, last sub-config key)
@@ -785,11 +854,13 @@ def run_base(base):
         uns = [f for f in points if f["kind"] == "unser"]
         points = [inv[0], inv[-1], uns[0], uns[-1]] if len(inv) > 1 else inv + uns[:1]
         points = [f for i, f in enumerate(points) if f not in points[:i]]
+    if only_raising:
+        points = [f for f in points if f["kind"] == "unser" and f.get("how") != "opaque"]
     for fault in points:
         one(fault)
     n = first["obs"]["n"]
     for op in ("open", "write", "close"):
-        for k in range(1, n[op] + 1):
+        for k in range(1, n[op] + 1 if not only_raising else 0):
             one({"kind": "oserror", "op": op, "k": k})
     # keep the smallest witness per signature (the parent does the same across items)
     best = {}
@@ -813,6 +884,7 @@ def _subsets(items):
 
 
 CORE = ["P", "Pt", "C", "F", "D"]
+SUBCONFIG_KINDS = ("P", "Pt", "Pe", "N", "C", "Ct", "G")  # a namespace sub-config that multi-file mode writes to its own file
 REST = ["Pe", "Pi", "Pti", "N", "Ct", "Fn", "G", "J", "Jn"]
 
 
@@ -941,7 +1013,8 @@ def explore(ctx):
     ctx.cover(
         evaluations=total["cases"],
         states=len(items),
-        transitions=total["cases"] + c("roundtrip:"),
+        transitions=total["cases"] + c("roundtrip:") + c("second-save:roundtrip:"),
+        second_saves=c("second-save:roundtrip:"),
         traces_validated_against_impl=total["cases"],
         distinct_nontrivial=min(total["nontrivial"], len(ids)),
         distinct_cases=len(ids),
@@ -950,7 +1023,9 @@ def explore(ctx):
         "axis), each expanded by every failure point of classes (a),(b) for its shape and every open/write/close seen "
         "in its fault-free run; transitions = save() calls + parse_path round trips; non-trivial = the case has a "
         "failure point, a pre-existing destination, a same-directory layout or at least one sub-file (i.e. it is not "
-        "'valid flat config saved into an empty directory'); distinct = distinct case ids",
+        "'valid flat config saved into an empty directory'); distinct = distinct case ids; every fault-free case whose "
+        "save returned continues with a second save of the same cfg object into another directory (second_saves, "
+        "counted in transitions together with its round trip, not in evaluations)",
         exhaustive=True,
         caps_hit=[],
         bounds={
@@ -958,6 +1033,8 @@ def explore(ctx):
             "component_kinds": sorted({k for s in all_shapes for k in s}),
             "max_components": max(len(s) for s in all_shapes),
             "faults_per_case": 1,
+            "saves_per_case": "2 for fault-free cases (same cfg object, second directory), 1 otherwise",
+            "unrepresentable_object": "every Any-typed position; every leaf when skip_validation=True",
             "layouts": ["other", "inplace", "sibling"],
             "secondary_axes": [sorted(v.items())[0] for v in SECONDARY],
             "secondary_axes_combined": "one at a time" if ctx.quick else "pairs",
@@ -979,4 +1056,18 @@ def explore(ctx):
     ctx.require(c("roundtrip-in-layout:inplace:") >= 10 and c("roundtrip-in-layout:sibling:") >= 10, "successful saves next to / onto the loaded files were re-parsed")
     ctx.require(all(c(f"axis:{k}={v}") >= 50 for var in SECONDARY for k, v in var.items()), ">= 50 cases on every secondary axis value")
     ctx.require(c("axis:names=shared") >= 200, ">= 200 cases with colliding sub-file base names")
+    # guards of the second-save / unrepresentable-object axes count ATTEMPTS (whatever the outcome), so that a tree on
+    # which they go wrong is reported as a violation, not as a vacuous run
+    ctx.require(c("second-save:roundtrip:") >= 100, ">= 100 second saves of the same cfg object")
+    ctx.require(c("second-save-multi-with-subfiles:") >= 50, ">= 50 of them multi-file with at least one sub-file")
+    ctx.require(c("second-save-validation-off:") >= 8, ">= 8 of them with skip_validation=True")
+    ctx.require(c("second-save-after-same-dir-layout:") >= 10, ">= 10 of them after a save next to / onto the loaded files")
+    ctx.require(c("opaque:any-typed:") >= 50, ">= 50 valid configurations with an unrepresentable object at an Any-typed position")
+    ctx.require(c("opaque:validation-off:") >= 50, ">= 50 unrepresentable objects with validation off")
+    ctx.require(c("opaque-in-subfile-config:") >= 50, ">= 50 unrepresentable objects inside a sub-config that has its own file")
+    # outcome-dependent, therefore only decisive for a run that is otherwise clean (a run with deviations is reported
+    # as such): without successful multi-file saves of namespace sub-configs the clause 'including configs that were
+    # originally loaded from separate sub-files' would never be exercised
+    if not ctx.deviations:
+        ctx.require(c("multi-saved-with-subconfig-file") >= 50, ">= 50 successful multi-file saves that wrote a namespace sub-config to its own file")
     ctx.require(c("exception:") >= 1000 and len([k for k in counts if k.startswith("exception:")]) >= 4, ">= 4 distinct exception types observed")
